@@ -351,8 +351,40 @@ def _after_step(world, res, dig, sig, actors, seq, step, outcome):
 # --------------------------------------------------------------------------------------------------
 # delta debugging over the concrete trace
 
+class _ReplayTimeout(BaseException):
+    pass
+
+
+class _wall_limit:
+    """Bound one candidate replay of the minimiser by wall time (harness only; never inside a judged run)."""
+
+    def __init__(self, seconds):
+        self.seconds = seconds
+        self.old = None
+
+    def _handler(self, signum, frame):
+        raise _ReplayTimeout()
+
+    def __enter__(self):
+        import signal
+        if self.seconds and hasattr(signal, "setitimer"):
+            try:
+                self.old = signal.signal(signal.SIGALRM, self._handler)
+                signal.setitimer(signal.ITIMER_REAL, self.seconds)
+            except ValueError:
+                self.old = None
+        return self
+
+    def __exit__(self, *exc):
+        import signal
+        if self.old is not None:
+            signal.setitimer(signal.ITIMER_REAL, 0)
+            signal.signal(signal.SIGALRM, self.old)
+        return False
+
+
 def minimise(world_cls, cfg: dict, trace: list, target: Violation, known, budget_runs: int = 400,
-             simplifiers=None, clock=None, budget_s: float = 60.0):
+             simplifiers=None, clock=None, budget_s: float = 60.0, per_test_s: float = 8.0):
     """ddmin on the step list, then per-step argument simplification.  Returns (trace, violation, runs)."""
     runs = 0
     t0 = clock() if clock else None
@@ -368,10 +400,13 @@ def minimise(world_cls, cfg: dict, trace: list, target: Violation, known, budget
         nonlocal runs
         runs += 1
         try:
-            r = execute(world_cls, 0, "replay", known, cfg=cfg, trace=cand)
-        except Exception:
-            # a sub-trace can put a step into a state its generator never saw (shapes no longer
-            # match): such a candidate is simply not a valid reduction
+            with _wall_limit(per_test_s):
+                r = execute(world_cls, 0, "replay", known, cfg=cfg, trace=cand)
+        except BaseException as e:
+            if isinstance(e, KeyboardInterrupt):
+                raise
+            # a sub-trace can put a step into a state its generator never saw (shapes no longer match, a
+            # garbage file parsed into periods millennia apart): such a candidate is simply not a valid reduction
             return None
         if r.violation is not None and r.violation.signature == target.signature:
             return r
